@@ -35,7 +35,7 @@ EXPLANATION = ("body VCs of _match (digest screen), overhang_start/end, target_s
 
 def obligations(ctx):
     from props._shared import typing_state_census
-    return list(ctx.verify(FUNCTIONS) + literal(ctx) + lemmas(ctx)) + [typing_state_census(ctx, 'C04')]
+    return list(ctx.verify(FUNCTIONS) + ctx.part(literal) + ctx.part(lemmas)) + ctx.part(lambda c_: [typing_state_census(c_, 'C04')], 'typing-state census')
 
 
 # ---------------------------------------------------------------------------------------------- C: literals
